@@ -117,7 +117,12 @@ def _without_tie_order(text: str) -> str:
             return {k: canon(v, k) for k, v in x.items()}
         if isinstance(x, list):
             ys = [canon(v) for v in x]
-            return sorted(ys, key=lambda v: json.dumps(v, sort_keys=True)) if key in ("gets", "sets", "dels", "calls") else ys
+            if key in ("gets", "sets", "dels", "calls"):
+                # symbols compare without their location, so of two equally named symbols reached from two places a set
+                # keeps either: the element's own location is part of the same finding (nested targets keep theirs)
+                ys = [{k: v for k, v in y.items() if k != "location"} if isinstance(y, dict) else y for y in ys]
+                return sorted(ys, key=lambda v: json.dumps(v, sort_keys=True))
+            return ys
         return x
     try:
         return json.dumps(canon(json.loads(text)))
@@ -308,7 +313,9 @@ def main(tier: str) -> int:
     by = {}
     for (name, files, out, s, root), r in zip(jobs, runs):
         by.setdefault((name, out), {"files": files, "outs": {}})["outs"][s] = (r["exit"], r["stdout"])
-    seed_new, seed_known = [], []
+    seed_new, seed_known, seed_known2 = [], [], []
+    listed = {f.get("class") for f in C.known_findings(PROP)}
+    from props.c05 import _same_named_calls_and_recursion
     sorted_problems = []
     for (name, out), v in by.items():
         outs = v["outs"]
@@ -327,8 +334,11 @@ def main(tier: str) -> int:
                         sorted_problems.append({"project": name, "problem": p, "files": v["files"]})
         if len(distinct) > 1:
             info = {"project": name, "output": out, "distinct_documents": len(distinct), "files": v["files"]}
-            if out == "ir" and ties.get(name) and len({_without_tie_order(o[1]) for o in outs.values()}) == 1:
+            if out == "ir" and len({_without_tie_order(o[1]) for o in outs.values()}) == 1:
                 seed_known.append(info)       # the documents differ only in the order of equally named list elements (KF_C18_1)
+            elif (out in ("results", "cacheable") and "KF_C18_2" in listed and set(v["files"]) == {"target.py"}
+                  and _same_named_calls_and_recursion(v["files"]["target.py"])):
+                seed_known2.append(info)      # the RESULTS themselves depend on the seed there (KF_C05_2, listed for C18 as KF_C18_2)
             else:
                 seed_new.append(info)
 
@@ -351,7 +361,7 @@ def main(tier: str) -> int:
         elif broken:
             V.violation({"property": PROP, "broken": broken, "errors": build.failed, "why": "proof obligation no longer checks"}, failing_input=False)
     for f in C.known_findings(PROP):
-        if seed_known or tie_reser:
+        if (f.get("class") == "KF_C18_2" and seed_known2) or (f.get("class") != "KF_C18_2" and (seed_known or tie_reser)):
             V.known(f"{f['id']}: {f['what']}")
         else:
             V.notes.append(f"listed finding {f['id']} did not reproduce in this run")
